@@ -206,12 +206,15 @@ fn main() {
         .unwrap_or_default();
     let agent = args.get(2).cloned().unwrap_or_default();
     let buf = Buf(Arc::new(Mutex::new(Vec::new())));
-    tracing_subscriber::fmt()
+    // installed WITHOUT the `log` -> `tracing` bridge that `.init()` would add: records of dependencies that use the
+    // `log` facade (russh, rustls) reach this subscriber only if the library under test bridges them itself
+    let subscriber = tracing_subscriber::fmt()
         .with_max_level(tracing::Level::TRACE)
         .with_span_events(FmtSpan::FULL)
         .with_ansi(false)
         .with_writer(buf.clone())
-        .init();
+        .finish();
+    tracing::subscriber::set_global_default(subscriber).expect("subscriber");
     let rt = tokio::runtime::Builder::new_multi_thread().worker_threads(4).enable_all().build().unwrap();
     let key_der: Vec<u8> = rustls_pemfile::private_key(&mut std::io::BufReader::new(std::fs::File::open(pki("client.key")).unwrap()))
         .unwrap()
